@@ -36,7 +36,7 @@ def build_replay(profile):
     return _replay_built[profile]
 
 
-def replay_native(harness, tape):
+def replay_native(harness, tape, lenient=False):
     """-> list of per-profile results {profile,status,message?}"""
     res = []
     for profile in ("dev", "release"):
@@ -45,7 +45,7 @@ def replay_native(harness, tape):
             res.append({"profile": profile, "status": "build-failed"})
             continue
         try:
-            p = subprocess.run([exe, harness, tape.hex()], stdout=subprocess.PIPE, stderr=subprocess.PIPE,
+            p = subprocess.run([exe, harness, tape.hex()] + (["--lenient"] if lenient else []), stdout=subprocess.PIPE, stderr=subprocess.PIPE,
                                timeout=120, text=True)
             line = p.stdout.strip().splitlines()[-1] if p.stdout.strip() else ""
             try:
@@ -143,7 +143,12 @@ def decide(prop, spec, slot_q, tier):
                     if tape and tape not in seen:
                         seen.add(tape)
                         nat = replay_native(name, tape)
-                        r["replays"].append({"class": "trace", "desc": c["desc"] + " [" + c["name"] + "]", "tape": tape.hex(), "native": nat})
+                        mode = "trace"
+                        if not any(n.get("status") == "violated" for n in nat):
+                            # a raw trace may omit inputs the failing path does not depend on
+                            nat = replay_native(name, tape, lenient=True)
+                            mode = "trace-lenient"
+                        r["replays"].append({"class": mode, "desc": c["desc"] + " [" + c["name"] + "]", "tape": tape.hex(), "native": nat})
         return r
     finally:
         slot_q.put(slot)
@@ -386,6 +391,8 @@ def do_replay(prop, path):
         print("replay file has no native tape; re-run: bin/check %s --only %s" % (prop, d["harness"]))
         return 2
     nat = replay_native(d["harness"], bytes.fromhex(d["tape"]))
+    if not any(n.get("status") == "violated" for n in nat):
+        nat = replay_native(d["harness"], bytes.fromhex(d["tape"]), lenient=True)
     print(json.dumps(nat))
     if any(n.get("status") == "violated" for n in nat):
         print("VIOLATION property=%s replay=%s" % (prop, path))
